@@ -104,7 +104,7 @@ fn menu_len(api: usize) -> usize {
 fn extra_len(api: usize) -> usize {
     match api {
         1..=3 => 2,
-        4 => 1,
+        4 => 2,
         _ => 0,
     }
 }
@@ -114,7 +114,7 @@ fn menu_name(api: usize, v: usize) -> &'static str {
         5 => ["no-value", "the-key's-genuine-item", "the-key's-genuine-binary-item", "other-bytes"][v],
         0 => ["no-value", "right-value", "other-bytes", "bit-flip", "value-of-other-target", "empty", "mutable-reply", "peers-reply"][v],
         1..=3 => ["no-value", "right-item", "other-key-valid", "other-salt", "seq-altered", "value-altered", "sig-altered", "bad-curve-point", "unsalted-slot-item", "immutable-reply", "right-binary-item", "binary-value-byte-swapped"][v],
-        _ => ["valid", "valid+forged", "forged+valid", "other-infohash", "key-sig-mismatch", "ts-altered", "empty-list", "peers-reply", "15-valid+forged-last", "16-valid", "same-key-twice-older-first"][v],
+        _ => ["valid", "valid+forged", "forged+valid", "other-infohash", "key-sig-mismatch", "ts-altered", "empty-list", "peers-reply", "15-valid+forged-last", "16-valid", "same-key-twice-older-first", "genuine-records-dated-ahead"][v],
     }
 }
 
@@ -221,6 +221,15 @@ fn forged_fields(api: usize, v: usize, now_micros: u64) -> Vec<(&'static str, B)
                     // never sends that; a reader must not fuse them into a record nobody signed)
                     let older = now_micros.saturating_sub(5_000_000);
                     vec![("peers", B::List(vec![rec(&k.sk, &k.pk, &INFOHASH, older, older), valid]))]
+                }
+                11 => {
+                    // genuine records dated ahead of the reader's clock (an announcer whose clock
+                    // runs fast): whatever the reader does with them, it must not hand out a record
+                    // with another timestamp than the signed one
+                    let sk3 = krpc::signing_key(0x53);
+                    let ahead = now_micros + 30_000_000;
+                    let far = now_micros + 3_600_000_000;
+                    vec![("peers", B::List(vec![rec(&k.sk, &k.pk, &INFOHASH, ahead, ahead), rec(&sk3, &sk3.verifying_key().to_bytes(), &INFOHASH, far, far)]))]
                 }
                 8 | 9 => {
                     let mut l: Vec<B> = (0..15u8)
